@@ -170,6 +170,18 @@ func guarded(e entry, in []byte, seconds int) (kind, digest string, nilOnErr boo
 
 // ---- seeds: grammar-derived documents per entry point -----------------------------
 
+// inputs that begin like OpenPGP armor but hold no complete clearsigned block: the paragraph and typed-document
+// parsers (called without a keyring) must answer with an error or with plain paragraphs, never die
+var pgpPrefixed = []string{
+	"-----BEGIN PGP MESSAGE-----\n",
+	"-----BEGIN PGP SIGNED MESSAGE-----\n",
+	"-----BEGIN PGP SIGNED MESSAGE-----\nHash: SHA256\n\nPackage: a\nVersion: 1\n",
+	"-----BEGIN PGP SIGNED MESSAGE-----\nHash: SHA256\n\nPackage: a\n-----BEGIN PGP SIGNATURE-----\n\nAAAA\n",
+	"-----BEGIN PGP SIGNATURE-----\n\niQ==\n-----END PGP SIGNATURE-----\n",
+	"-----BEGIN PGP ",
+	"-----BEGIN PGP SIGNED MESSAGE-----",
+}
+
 var seedsC18 = map[string][]string{
 	"version":    {"1:2.3.4+dfsg-1~bpo9+1", "1.0", "0:0-0", "2.36.1-8+deb11u1"},
 	"arch":       {"amd64", "linux-any", "any", "all", "musl-linux-armhf"},
@@ -245,6 +257,14 @@ func genC18(seed int64, tier string, out *Writer) {
 		n = 4000
 	}
 	for _, name := range entryNames() {
+		// armor-like prefixes, alone and in front of a valid document, and cut at every length of the first line
+		for _, pre := range pgpPrefixed {
+			out.Put(J{"k": "seq", "entry": name, "input": B(pre)})
+			out.Put(J{"k": "seq", "entry": name, "input": B(pre + seedsC18[name][0])})
+		}
+		for cut := 1; cut <= len(pgpPrefixed[1]); cut += 3 {
+			out.Put(J{"k": "seq", "entry": name, "input": B(pgpPrefixed[1][:cut])})
+		}
 		for i := 0; i < n; i++ {
 			sd := seedsC18[name][r.Intn(len(seedsC18[name]))]
 			var in string
